@@ -28,7 +28,17 @@ pub struct Env {
 pub open spec fn is_prefix_grown(a: Seq<ControlMessage>, b: Seq<ControlMessage>) -> bool { a.len() <= b.len() && b.subrange(0, a.len() as int) == a }
 pub open spec fn grows(a: &Env, b: &Env) -> bool {
     is_prefix_grown(a.urgent@, b.urgent@) && is_prefix_grown(a.high@, b.high@) && is_prefix_grown(a.normal@, b.normal@)
+    && senders_kept(a, b)
 }
+// ASSUMPTION about the other tasks: controls reach the queues only through the `Job` methods, which send only Stop/Delete with urgent and
+// only NextEnding with high priority (proved for every Job method: C10.job_*; call sites enumerated: C10.structure.*)
+pub open spec fn urgent_class(c: Control) -> bool { c is Stop || c is Delete }
+pub open spec fn high_class(c: Control) -> bool { c is NextEnding }
+pub open spec fn senders_ok(urgent: Seq<ControlMessage>, high: Seq<ControlMessage>) -> bool {
+    (forall|i: int| 0 <= i < urgent.len() ==> urgent_class(#[trigger] urgent[i].control))
+    && (forall|i: int| 0 <= i < high.len() ==> high_class(#[trigger] high[i].control))
+}
+pub open spec fn senders_kept(a: &Env, b: &Env) -> bool { senders_ok(a.urgent@, a.high@) ==> senders_ok(b.urgent@, b.high@) }
 // blocking operations (await points, syscalls, user callbacks) let time pass; non-blocking ones (Instant::now, try_recv, raise) do not
 pub open spec fn arrivals_only(a: &Env, b: &Env) -> bool { b.now@ >= a.now@ && grows(a, b) }
 pub open spec fn same_world(a: &Env, b: &Env) -> bool { a.log == b.log && a.live == b.live && a.raised == b.raised }
@@ -155,13 +165,13 @@ pub struct Child { pub cid: int }
 impl Child {
     #[verifier::external_body]
     pub fn kill(&mut self, env: &mut Env) -> (r: Result<(), IoError>)
-        ensures final(self).cid == old(self).cid, final(env).now@ >= old(env).now@,
+        ensures final(self).cid == old(self).cid, final(env).now@ >= old(env).now@, senders_kept(old(env), final(env)),
             final(env).log@ == old(env).log@.push(Act::Kill { cid: old(self).cid, ok: r is Ok }),
             final(env).live == old(env).live, final(env).raised == old(env).raised,
     { unimplemented!() }
     #[verifier::external_body]
     pub fn wait(&mut self, env: &mut Env) -> (r: Result<ExitStatus, IoError>)
-        ensures final(self).cid == old(self).cid, final(env).now@ >= old(env).now@,
+        ensures final(self).cid == old(self).cid, final(env).now@ >= old(env).now@, senders_kept(old(env), final(env)),
             final(env).log@ == old(env).log@.push(Act::Wait { cid: old(self).cid, ok: r is Ok }),
             r is Ok ==> final(env).live@ == old(env).live@.remove(old(self).cid),
             r is Err ==> final(env).live == old(env).live,
@@ -169,7 +179,7 @@ impl Child {
     { unimplemented!() }
     #[verifier::external_body]
     pub fn signal(&mut self, sig: NixSignal, env: &mut Env) -> (r: Result<(), IoError>)
-        ensures final(self).cid == old(self).cid, final(env).now@ >= old(env).now@,
+        ensures final(self).cid == old(self).cid, final(env).now@ >= old(env).now@, senders_kept(old(env), final(env)),
             final(env).log@ == old(env).log@.push(Act::Signal { cid: old(self).cid, nix: sig.n, ok: r is Ok }),
             final(env).live == old(env).live, final(env).raised == old(env).raised,
     { unimplemented!() }
@@ -190,7 +200,7 @@ impl Spawnable {
     // TokioCommandWrap::spawn
     #[verifier::external_body]
     pub fn spawn(&mut self, env: &mut Env) -> (r: Result<Child, IoError>)
-        ensures final(env).now@ >= old(env).now@, final(env).raised == old(env).raised, final(self).ver == old(self).ver,
+        ensures final(env).now@ >= old(env).now@, senders_kept(old(env), final(env)), final(env).raised == old(env).raised, final(self).ver == old(self).ver,
             r is Ok ==> !old(env).live@.contains(r->Ok_0.cid) && final(env).live@ == old(env).live@.insert(r->Ok_0.cid)
                 && final(env).log@ == old(env).log@.push(Act::Spawn { ok: true, cid: r->Ok_0.cid, ver: old(self).ver }),
             r is Err ==> final(env).live == old(env).live
@@ -221,21 +231,21 @@ impl SpawnHook {
     // generated by the `sync_async_callbox!` macro in task.rs (not extracted): calls the stored closure once
     #[verifier::external_body]
     pub fn call(&self, command: &mut Spawnable, context: &JobTaskContext<'_>, env: &mut Env)
-        ensures final(env).now@ >= old(env).now@, final(env).live == old(env).live, final(env).raised == old(env).raised,
+        ensures final(env).now@ >= old(env).now@, senders_kept(old(env), final(env)), final(env).live == old(env).live, final(env).raised == old(env).raised,
             final(env).log@ == old(env).log@.push(Act::Hook { inp: old(command).ver, out: final(command).ver, cur: cs_view(context.current), prev: opt_view(context.previous) }),
     { unimplemented!() }
 }
 impl ErrorHandler {
     #[verifier::external_body]
     pub fn call(&self, error: SyncIoError, env: &mut Env)
-        ensures final(env).now@ >= old(env).now@, final(env).live == old(env).live, final(env).raised == old(env).raised,
+        ensures final(env).now@ >= old(env).now@, senders_kept(old(env), final(env)), final(env).live == old(env).live, final(env).raised == old(env).raised,
             final(env).log@ == old(env).log@.push(Act::ErrH),
     { unimplemented!() }
 }
 impl SyncFunc {
     #[verifier::external_body]
     pub fn call_once(self, context: &JobTaskContext<'_>, env: &mut Env)
-        ensures final(env).now@ >= old(env).now@, final(env).live == old(env).live, final(env).raised == old(env).raised,
+        ensures final(env).now@ >= old(env).now@, senders_kept(old(env), final(env)), final(env).live == old(env).live, final(env).raised == old(env).raised,
             final(env).log@ == old(env).log@.push(Act::Func { cur: cs_view(context.current), prev: opt_view(context.previous) }),
     { unimplemented!() }
 }
@@ -243,7 +253,7 @@ impl AsyncFunc {
     // returns the boxed future, awaited by the caller (R1 drops the await): call + completion are one step
     #[verifier::external_body]
     pub fn call_once(self, context: &JobTaskContext<'_>, env: &mut Env)
-        ensures final(env).now@ >= old(env).now@, final(env).live == old(env).live, final(env).raised == old(env).raised,
+        ensures final(env).now@ >= old(env).now@, senders_kept(old(env), final(env)), final(env).live == old(env).live, final(env).raised == old(env).raised,
             final(env).log@ == old(env).log@.push(Act::Func { cur: cs_view(context.current), prev: opt_view(context.previous) }),
     { unimplemented!() }
 }
@@ -339,3 +349,14 @@ pub fn vx_branch_disabled<T>() -> (r: T) ensures false { unimplemented!() }
 pub fn vx_array_first<const N: usize>(a: [Control; N]) -> (r: Control) requires N > 0 ensures r == a@[0] { unimplemented!() }
 #[verifier::external_body]
 pub fn vx_array_to_vec<const N: usize>(a: [Control; N]) -> (r: Vec<Control>) ensures r@ == a@ { unimplemented!() }
+
+// R6b: which enabled branch of a two-branch select! completes first (arbitrary); 2 if none is enabled
+#[verifier::external_body]
+pub fn vx_select_order(g0: bool, g1: bool) -> (r: usize)
+    ensures r <= 2, r == 0 ==> g0, r == 1 ==> g1, r == 2 ==> !g0 && !g1,
+{ unimplemented!() }
+// a select! without else arm panics when every branch is disabled: reaching this is a failed obligation
+#[verifier::external_body]
+pub fn vx_select_panics()
+    requires false, // OBL:C07.job_task.select_never_panics
+{ unimplemented!() }
